@@ -6,7 +6,7 @@ from . import symex, report
 def verify_jobs(run, jobs, cross=False):
     """jobs: list of dict(contract=, source=, callees=, lang=, tag=, dropped_extra=)
     Returns list of Verdict (also added to run). Binding/unsupported problems become `undecided` entries."""
-    allobl = []
+    allobl, partial = [], []
     for jb in jobs:
         c = jb["contract"]
         tag = jb.get("tag") or "%s/%s" % (c.qualname, "c" if jb.get("lang", "py").startswith("C") else "py")
@@ -26,9 +26,18 @@ def verify_jobs(run, jobs, cross=False):
             run.notes.append("%s: %d obligations, %d infeasible branches pruned" % (tag, len(obls), eng.pruned))
         except (symex.Unsupported, symex.BindError) as ex:
             run.undecided.append("%s: %s: %s" % (tag, type(ex).__name__, ex))
+            part = getattr(ex, "obls", None)
+            if part:
+                # obligations generated before the binding problem: only refutations are kept (a proof of a partial set proves nothing)
+                for o in part:
+                    o.name = tag + "::" + o.name
+                    o.meta = dict(o.meta or {}, partial=True)
+                partial += part
         except Exception as ex:
             run.undecided.append("%s: checker error %r" % (tag, ex))
             run.notes.append(traceback.format_exc()[-800:])
     vs = report.discharge_smt(allobl, cross=cross)
+    if partial:
+        vs += [v for v in report.discharge_smt(partial, cross=False) if v.status == "failed"]
     run.add_verdicts(vs)
     return vs
